@@ -543,6 +543,22 @@ func nativeTime(fr *frame, st structure) time.Time {
 
 // ---- fmt
 
+// nativeScalarMethod stands for a value of a named scalar type with an Error or String method (zapcore.Level,
+// time.Duration, ...): fmt uses the method for the string verbs only, and the plain value for %d, %x, %g ...
+type nativeScalarMethod struct {
+	f     func() string
+	plain interface{}
+}
+
+func (n nativeScalarMethod) Format(st fmt.State, verb rune) {
+	switch verb {
+	case 's', 'v', 'q':
+		fmt.Fprintf(st, fmt.FormatString(st, verb), nativeStringer{n.f})
+	default:
+		fmt.Fprintf(st, fmt.FormatString(st, verb), n.plain)
+	}
+}
+
 type nativeStringer struct{ f func() string }
 
 func (n nativeStringer) String() string { return n.f() }
@@ -654,6 +670,16 @@ func (c *fmtCtx) native(v value) interface{} {
 			return nativeNilSafe{func() string { return c.callMethod(t, v, "String") }}
 		}
 		t, rv := x.t, x.v
+		if !hasF && (hasE || hasS) {
+			switch rv.(type) {
+			case bool, int, int8, int16, int32, int64, uint, uint8, uint16, uint32, uint64, uintptr, float32, float64, sym:
+				m := "String"
+				if hasE {
+					m = "Error"
+				}
+				return nativeScalarMethod{func() string { return c.callMethod(t, rv, m) }, c.nativePlain(rv, nil)}
+			}
+		}
 		switch {
 		case hasF:
 			return nativeFormatter{func(verb rune, plus bool) string {
